@@ -310,14 +310,24 @@ func VH_C05_dashdriver_Q() {
 	// is there a dash boundary strictly inside (0,L)?  positions b with (u0+b) mod P in accs
 	anyBoundary := false
 	endClear := true
+	nearEndHit := false
 	for rep := 0; rep < 4; rep++ { // L <= 4, P >= 1.5: at most 3 periods
 		for j := 1; j < len(accs); j++ {
 			b := float64(rep)*P + accs[j] - u0
 			anyBoundary = anyBoundary || (0 < b && b < L)
 			endClear = endClear && math.Abs(b-L) >= 1e-6
+			nearEndHit = nearEndHit || (L-9e-11 <= b && b <= L-1e-11)
 		}
 	}
-	vAssume(endClear)
+	// variant "near end": a dash boundary lies within Epsilon before the end of the subpath
+	// (what accumulated rounding produces for patterns that divide the length); the tail shorter
+	// than Epsilon must not produce an extra cut that shifts the dash/gap parity
+	nearEnd := vChoose(0, 1) == 1
+	if nearEnd {
+		vAssume(nearEndHit)
+	} else {
+		vAssume(endClear)
+	}
 	onStart := vhOnPattern(off, d, 0)
 	onEnd := vhOnPattern(off, d, L)
 	// the output pieces of this input subpath (subpaths are 20 apart), in output order
@@ -348,10 +358,10 @@ func VH_C05_dashdriver_Q() {
 			ordered = ordered && arclen(starts[k]) < arclen(starts[k+1])
 		}
 		vAssert("C05.dash.open_pieces_in_path_order", ordered)
-		if onStart {
+		if onStart && !nearEnd {
 			vAssert("C05.dash.open_first_piece_at_start", len(starts) > 0 && vhNearPt(starts[0], pts[0]))
 		}
-	} else if onStart && onEnd && anyBoundary {
+	} else if onStart && onEnd && anyBoundary && !nearEnd {
 		// a closed subpath that starts and ends inside a dash: the two parts are joined, so no
 		// piece begins at the start vertex
 		joined := true
